@@ -29,14 +29,33 @@ def _freeze_value(x):
         return x
 
 
+def _types_of(x):
+    # Types of all (nested) values. Used as additional part of the cache key, since values of different types may compare
+    # equal and have the same hash (e.g. 2, 2.0 and True) but must not share a cache entry
+    if isinstance(x, list | tuple):
+        return tuple(_types_of(x) for x in x)
+    elif isinstance(x, dict | frozendict.frozendict):
+        return tuple((k, _types_of(v)) for k, v in x.items())
+    else:
+        return type(x)
+
+
 def _freeze_args(func):
     @functools.wraps(func)
     def func_frozen(*args, **kwargs):
         args = [_freeze_value(a) for a in args]
         kwargs = {k: _freeze_value(v) for k, v in kwargs.items()}
-        return func(*args, **kwargs)
+        return func(_types_of((args, kwargs)), *args, **kwargs)
 
     return func_frozen
+
+
+def _drop_types(func):
+    @functools.wraps(func)
+    def func_without_types(types, *args, **kwargs):
+        return func(*args, **kwargs)
+
+    return func_without_types
 
 
 def _with_retrace_warning(func):
@@ -97,6 +116,7 @@ def _with_retrace_warning(func):
 # 2. warns if there are more than EINX_WARN_ON_RETRACE cache failures from the same call site
 def lru_cache(func):
     func = _with_retrace_warning(func)
+    func = _drop_types(func)
 
     if max_cache_size > 0:
         func = functools.lru_cache(maxsize=max_cache_size if max_cache_size > 0 else None)(func)
